@@ -14,6 +14,11 @@ STUBS = [
     "independent OVF 2.0 parser, h5py view, VTK FindCell consumer (in-process peers)",
 ]
 
+VTK_VDIMS = {
+    2: [["in-plane-component", "out-component"]],
+    3: [["a-component", "b-component", "c"], ["x-component", "y-component", "z-component"]],
+    4: [["a", "a-component", "b", "c"]],
+}
 SAFE_VDIMS = {
     2: [None, ["a", "b"], ["mx", "my"], ["m_x", "m_y"], ["c1", "c2"]],
     3: [None, ["a", "b", "c"], ["mx", "my", "mz"], ["m_x", "m_y", "m_z"], ["c1", "c2", "c3"], ["z", "x", "y"], ["a_b", "a_c", "b_1"]],
@@ -69,6 +74,7 @@ class StoreProfile(Profile):
     engine = "storesim"
     real_components = REAL
     stub_components = STUBS
+    state_measure = "final store: per path (format, representation, damage class, writes<=3, has subregions, foreign)"
     fmt = None
     assumptions = [
         "the store is a real tmpfs directory; a torn write leaves exactly the first c bytes (writers are sequential; the proxy fails the run if a writer seeks)",
@@ -171,7 +177,7 @@ class OvfProfile(StoreProfile):
         "least one storage/fault oracle evaluation"
     )
 
-    def draw_config(self, rng):
+    def _draw_config(self, rng):
         return {
             "family": rng.choice(["dyadic", "nm", "nm"]),
             "steps": rng.randint(3, 30),
@@ -191,7 +197,8 @@ class OvfProfile(StoreProfile):
     def gen_op(self, rng, st):
         cfg = st.cfg
         out = st.next_slot
-        names = [f"p{i}.{ext}" for i, ext in zip(range(cfg["npaths"]), ["omf", "ovf", "ohf", "omf"])]
+        # paths share stems: p0.omf / p0.ovf / p0.ohf are three different files
+        names = [f"p{i // 3}.{ext}" for i, ext in zip(range(cfg["npaths"]), ["omf", "ovf", "ohf", "omf"])]
         if not [s for s, (_, f) in st.f.items() if f.mesh.region.ndim == 3 and len(set(f.mesh.region.units)) == 1] or (len(st.f) < cfg["nfields"] and rng.random() < 0.3):
             big = cfg["large"] and not st.f
             o = self.draw_field(rng, st, out, 3, 216, cfg["max_subs"], True, cfg["reps"], bc_any=True)
@@ -322,7 +329,7 @@ class Hdf5Profile(StoreProfile):
     prop = "C10"
     name = "hdf5"
     fmt = "hdf5"
-    required_probes = ("path_reuse", "foreign_hdf5-legacy", "recovery_read", "intcorner_floatsubs", "stale_sidecar_next_to_hdf5")
+    required_probes = ("path_reuse", "foreign_hdf5-legacy", "recovery_read", "intcorner_floatsubs", "stale_sidecar_next_to_hdf5", "twin_field", "large_field")
     rule = (
         "one case = one seeded store history (3-20 ops) of HDF5 writes and reads of 1-4-d fields (arbitrary dims/units/tolerance/"
         "bc/subregions, int- or float-typed corners crossed with int- or float-typed subregion corners, labels and unit present or "
@@ -331,7 +338,7 @@ class Hdf5Profile(StoreProfile):
         "(op kind, fault kind, outcome); non-trivial = at least 2 steps and at least one storage oracle evaluation"
     )
 
-    def draw_config(self, rng):
+    def _draw_config(self, rng):
         return {
             "family": rng.choice(["dyadic", "nm", "dyadic"]),
             "steps": rng.randint(3, 20),
@@ -344,6 +351,7 @@ class Hdf5Profile(StoreProfile):
             "faults": sorted(rng.sample(["restart", "truncate"], rng.randint(0, 2))),
             "foreign": rng.random() < 0.3,
             "dtypes": rng.choice([[None], [None, "int", "complex", "float"]]),
+            "large": rng.random() < 0.03,
         }
 
     def gen_op(self, rng, st):
@@ -355,6 +363,16 @@ class Hdf5Profile(StoreProfile):
             ndim = rng.choice([1, 2, 3, 3, 4])
             o = self.draw_field(rng, st, out, ndim, 200, cfg["max_subs"], False, None, intcorners_p=cfg["intcorners_p"], tol_any=True)
             o["dtype"] = rng.choice(cfg["dtypes"])
+            if cfg.get("large") and not st.f:
+                # more than 2**16 values, no round numbers: chunked code paths, if any
+                n_big = {1: [70001], 2: [263, 251], 3: [47, 41, 37], 4: [17, 16, 15, 17]}[ndim]
+                pmin = [min(a, b) for a, b in zip(o["mesh"]["p1"], o["mesh"]["p2"])]
+                u = Geo(cfg["family"]).u
+                o["mesh"] = dict(o["mesh"], p1=pmin, p2=[a + k * u for a, k in zip(pmin, n_big)], n=n_big, subs=[])
+                o["mesh"].pop("intcorners", None)
+                o["mesh"].pop("intsubs", None)
+                o["valid"] = None
+                st.stats.probe("large_field")
             o["value"] = {"kind": "idx", "step": rng.choice([1.0, 0.5])} if rng.random() < 0.5 else {"kind": "wide", "seed": rng.randrange(2**31), "emax": 300 if o["dtype"] != "int" else 8, "specials": rng.sample(SPECIALS8, 3) if o["dtype"] is None else []}
             o["valid"] = {"kind": "mask", "seed": rng.randrange(2**31), "p": rng.choice([0.2, 0.7])} if rng.random() < 0.6 else None
             if rng.random() < 0.15 and o["nvdim"] > 1:
@@ -378,6 +396,8 @@ class Hdf5Profile(StoreProfile):
                 o["pre"] = pre
             return o
         r = rng.random()
+        if st.f and len(st.f) < 4 and rng.random() < 0.08:
+            return {"op": "mkvariant", "src": rng.choice(sorted(st.f)), "out": out, "change": rng.choice(["tol", "tol", "corners", "corners", "bc", "subs", "unit"]), "tol": rng.choice([1e-6, 1e-9, 1e-3])}
         if r < 0.4 or not paths:
             return {"op": "write", "src": rng.choice(sorted(st.f)), "path": rng.choice(names), "fmt": "hdf5", "rep": None, "opts": {}}
         if r < 0.65:
@@ -424,13 +444,13 @@ class VtkProfile(StoreProfile):
         "of (op kind, fault kind, outcome); non-trivial = at least 2 steps and at least one storage oracle evaluation"
     )
 
-    def draw_config(self, rng):
+    def _draw_config(self, rng):
         return {
             "family": rng.choice(["dyadic", "nm", "nm"]),
             "steps": rng.randint(3, 20),
             "npaths": rng.randint(1, 3),
             "nfields": rng.randint(1, 3),
-            "reps": sorted(rng.sample(["bin", "txt", "xml"], rng.randint(1, 3))),
+            "reps": sorted(rng.sample(["bin", "txt", "xml", "bin8", "default"], rng.randint(1, 4))),
             "nvdims": rng.choice([[1], [3], [1, 2, 3, 4], [2, 4]]),
             "max_subs": rng.choice([0, 1, 3]),
             "faults": sorted(rng.sample(["lose_sidecar", "restart", "truncate"], rng.randint(0, 3))),
@@ -447,6 +467,8 @@ class VtkProfile(StoreProfile):
             o["value"] = {"kind": "idx", "step": rng.choice([1.0, 0.5, -2.0])} if rng.random() < 0.6 else {"kind": "wide", "seed": rng.randrange(2**31), "emax": 100, "specials": []}
             o["valid"] = {"kind": "mask", "seed": rng.randrange(2**31), "p": rng.choice([0.2, 0.7])} if rng.random() < 0.7 else None
             o["unit"] = None  # not promised by C16
+            if o["nvdim"] in VTK_VDIMS and rng.random() < 0.15:
+                o["vdims"] = rng.choice(VTK_VDIMS[o["nvdim"]])
             return o
         r = rng.random()
         odd = [s for s, (_, f) in st.f.items() if f.mesh.region.ndim != 3]
